@@ -231,7 +231,12 @@ class Gen:
             a = self.gen(d, ish, osh, idt, odt, allow_mat=True)
             # the partner mostly on the same dtypes as `a` really declares (so that deep conforming trees occur)
             ai, ao = _decl(a, idt, odt)
-            b = self.gen(d, ish, osh, ai, ao, allow_mat=not a.is_mat)
+            # malformed: the partner lives on a space of the same SIZE but another shape tuple (scico compares tuples;
+            # a model that compared flat sizes would accept)
+            ish_b, osh_b = ish, osh
+            if rng.random() < 0.08:
+                ish_b, osh_b = _reshaped(ish), _reshaped(osh)
+            b = self.gen(d, ish_b, osh_b, ai, ao, allow_mat=not a.is_mat)
             return self.combine({"k": f}, [a, b])
         if f == "neg":
             return self.combine({"k": "neg"}, [self.gen(d, ish, osh, idt, odt)])
@@ -242,7 +247,7 @@ class Gen:
             mid = self.shape()
             b = self.gen(d, ish, mid, idt, None, allow_mat=True)
             bi, bo = _decl(b, idt, None)
-            a = self.gen(d, mid, osh, bo, odt)
+            a = self.gen(d, _reshaped(mid) if rng.random() < 0.08 else mid, osh, bo, odt)
             return self.combine({"k": "comp"}, [a, b])
         if f in ("T", "H"):
             return self.combine({"k": f}, [self.gen(d, osh, ish, odt, idt)])
@@ -360,6 +365,18 @@ class Gen:
     def _reg(self, nd):
         self.nodes.append(nd)
         return nd
+
+
+def _reshaped(sh):
+    """another shape of the same flat size (reversed dims / flattened / split into blocks)"""
+    sh = norm_shape(sh)
+    if is_nested(sh):
+        return (flat_size(sh),)
+    if len(sh) >= 2 and tuple(reversed(sh)) != tuple(sh):
+        return tuple(reversed(sh))
+    if len(sh) >= 2:
+        return (flat_size(sh),)
+    return (1, sh[0])
 
 
 def _decl(node, hi, ho):
